@@ -21,6 +21,10 @@ VARIABLES l,      \* next line of the trace
 vars == <<l, st, mism, obs>>
 
 Trace == ndJsonDeserialize(IOEnv.TRACE)
+\* Second pass (NORESYNC=1): the specification's state is *not* replaced by the logged projection after
+\* each event, it evolves by its own rules from the same inputs; a deviation in a projected field that the
+\* first pass adopted then shows in what the calls that follow return, if it has any consequence at all.
+NoResync == "NORESYNC" \in DOMAIN IOEnv /\ IOEnv.NORESYNC = "1"
 
 Parties == {"A", "B"}
 
@@ -262,7 +266,8 @@ PropViolations(e, o) ==
   \cup (IF e.ev # "Done" /\ e.st.ms # "enc" /\ e.st.auth \in {"nil", "none"} /\ e.st.held # <<>>
         THEN {<<"C08", "DH exponents are retained although no session or key exchange exists">>} ELSE {})
   \cup (IF e.ev = "End" /\ ~e.err /\ (e.st.auth \notin {"nil", "none"} \/ e.st.ax # 0)
-        THEN {<<"C08", "End() left the ephemeral secrets of an unfinished key exchange reachable">>} ELSE {})
+        THEN {<<"C08", "End() left the ephemeral secrets of an unfinished key exchange reachable">>,
+              <<"C18", "End() did not abandon the key exchange in progress: a late message can make the ended conversation encrypted again">>} ELSE {})
   \cup (IF e.ev # "Done" /\ e.st.ms = "fin" /\ e.st.rsq # <<>>
         THEN {<<"C08", "text retained after the peer ended the session">>} ELSE {})
   \cup (IF e.ev # "Done" /\ \E i \in DataOuts(e) : e.out[i].pad # "ok"
@@ -309,7 +314,7 @@ DoStep(e) ==
       d == IF e.rf THEN (IF e.panic THEN {"panic"} ELSE {}) ELSE ResultDiffs(e, r) \cup StateDiffs(e, r)
       o == NextObs(e)
       pv == {v \in PropViolations(e, o) : v \notin obs.flagged}
-  IN /\ st' = [st EXCEPT ![e.p] = Resync(r.s, e.st)]
+  IN /\ st' = [st EXCEPT ![e.p] = IF NoResync /\ ~e.rf THEN r.s ELSE Resync(r.s, e.st)]
      /\ IF d = {} THEN mism' = mism ELSE /\ Report(e, r, d)
                                          /\ mism' = mism + 1
      /\ \A v \in pv : ReportProp(e, v)
